@@ -7,6 +7,8 @@ package main
 //	          B.wireSpawnOptions -> B.Spawn            (what recreateActorFromWire does)
 //	remote    A.Spawn(opts + WithHostAndPort(B)) -> remoteclient.RemoteSpawn -> TCP loopback ->
 //	          B.remoteSpawnHandler -> B.Spawn
+//	child     remoteParentPID.SpawnChild(opts) -> remoteclient.RemoteSpawnChild -> TCP loopback ->
+//	          B.remoteSpawnChildHandler -> parent.SpawnChild      (reference: parent.SpawnChild locally)
 //
 // and record what the local PID and the copy actually run with. Nothing is judged here.
 
@@ -372,7 +374,17 @@ func runSpawn(casesPath, tracePath string) {
 		fatal(err)
 	}
 
-	var nReloc, nRemote, nErr int
+	// a parent on the hosting node, reachable from A as a remote PID and from B as a local PID
+	parentRemote, err := sysA.Spawn(ctx, "parent", &probeActor{}, actor.WithLongLived(), actor.WithHostAndPort("127.0.0.1", portB))
+	if err != nil {
+		fatal(fmt.Errorf("remote parent: %w", err))
+	}
+	parentLocal, err := sysB.ActorOf(ctx, "parent")
+	if err != nil || !parentLocal.IsLocal() || !parentRemote.IsRemote() {
+		fatal(fmt.Errorf("parent lookup on the hosting node: %v", err))
+	}
+
+	var nReloc, nRemote, nChild, nErr int
 	stop := func(pids ...*actor.PID) {
 		for _, p := range pids {
 			if p != nil {
@@ -450,6 +462,37 @@ func runSpawn(casesPath, tracePath string) {
 			nRemote++
 		}
 		stop(local)
+
+		{
+			// remote child spawn: remotePID.SpawnChild -> RemoteSpawnChild -> remoteSpawnChildHandler -> parent.SpawnChild,
+			// compared with a child spawned by the same parent locally with the same options
+			line := map[string]any{"path": "child", "cfg": rawCases[i], "err": "", "wire": map[string]any{}}
+			localChild, err := parentLocal.SpawnChild(ctx, fmt.Sprintf("lc%d", i), &probeActor{}, buildOptions(c)...)
+			if err != nil {
+				fatal(fmt.Errorf("case %d: local child spawn: %w", i, err))
+			}
+			obsChild := observe(localChild)
+			line["local"] = obsChild
+			name := fmt.Sprintf("mc%d", i)
+			var copyPID *actor.PID
+			_, err = parentRemote.SpawnChild(ctx, name, &probeActor{}, buildOptions(c)...)
+			if err == nil {
+				copyPID, err = sysB.ActorOf(ctx, name)
+			}
+			if err == nil && !copyPID.IsLocal() {
+				err = fmt.Errorf("remote child spawn: %s is not local to the hosting node", name)
+			}
+			if err != nil {
+				line["err"] = err.Error()
+				line["copy"] = obsChild
+				nErr++
+			} else {
+				line["copy"] = observe(copyPID)
+			}
+			w.Raw(line)
+			stop(copyPID, localChild)
+			nChild++
+		}
 	}
 	_ = sysA.Stop(ctx)
 	_ = sysB.Stop(ctx)
@@ -457,5 +500,5 @@ func runSpawn(casesPath, tracePath string) {
 	if err := w.Close(); err != nil {
 		fatal(err)
 	}
-	fmt.Printf("{\"cases\":%d,\"events\":%d,\"relocate\":%d,\"remote\":%d,\"errors\":%d}\n", len(cases), n, nReloc, nRemote, nErr)
+	fmt.Printf("{\"cases\":%d,\"events\":%d,\"relocate\":%d,\"remote\":%d,\"child\":%d,\"errors\":%d}\n", len(cases), n, nReloc, nRemote, nChild, nErr)
 }
